@@ -1,6 +1,7 @@
 package props
 
 import (
+	"encoding/json"
 	"fmt"
 	"os"
 	"path/filepath"
@@ -22,7 +23,7 @@ type c01 struct{}
 func (c01) ID() string    { return "C01" }
 func (c01) Level() string { return "exploration" }
 func (c01) Rule() string {
-	return "(a) every attribute path of the schema (read from /repo/schema/compose-spec.json at run time) x 15 YAML node kinds placed at that path, as a single file, as a second document, as an override of the valid witness, as the base under a valid override, in an extended base and in an included file; (b) the single-file matrix under each of 10 load options flipped alone and all together (thorough: more option sets); (c) YAML alias/anchor cycles and merge keys, extends, include (every spelling of every edge incl. multi-path entries) and depends_on cycles; (d) every {present, absent, directory-in-place} state vector of the files referenced by 5 scenarios (override, extends chain, nested include with env files, env_file/label_file, cli .env); (e) every distance-1 byte edit (delete, insert/replace by 18 significant bytes) of 6 seed documents. Oracle: exactly one of project/error, no panic, no process death, no hang; cycles and missing required files are errors naming the file. distinct = distinct (position, kind, route, options) outcomes"
+	return "(a) every attribute path of the schema (read from /repo/schema/compose-spec.json at run time) x 15 YAML node kinds placed at that path, as a single file, as a second document, as an override of the valid witness, as the base under a valid override, in an extended base and in an included file; (b) the single-file matrix under each of 10 load options flipped alone and all together (thorough: more option sets); (b') every pair of valid service attribute values of the three full corpus documents (whole, and cut down to each single child / grandchild of a mapping) on one service; (c) YAML alias/anchor cycles and merge keys, extends, include (every spelling of every edge incl. multi-path entries) and depends_on cycles; (d) every {present, absent, directory-in-place} state vector of the files referenced by 5 scenarios (override, extends chain, nested include with env files, env_file/label_file, cli .env); (e) every distance-1 byte edit (delete, insert/replace by 18 significant bytes) of 6 seed documents. Oracle: exactly one of project/error, no panic, no process death, no hang; cycles and missing required files are errors naming the file. distinct = distinct (position, kind, route, options) outcomes"
 }
 func (c01) Assumptions() []string {
 	return []string{
@@ -339,11 +340,109 @@ func (c01) Run(c *core.Ctx) {
 			}
 		}
 	}
+	c01validPairs(c)
 	c01cycles(c)
 	dependsOnDigraphs(c, "depends_on/")
 	c01refcycles(c)
 	c01files(c)
 	c01bytes(c)
+}
+
+// c01validPairs: every pair of valid service attribute values taken from the three full corpus documents - each value
+// whole, and cut down to every single child (and grandchild) of a mapping value - on one service. Validation stages
+// that relate two attributes (legacy resources vs deploy, network_mode vs networks, ...) see every combination of
+// presence and absence of their operands.
+func c01validPairs(c *core.Ctx) {
+	type av struct {
+		attr, tag, sig string
+		val            any
+		tops           map[string]any
+	}
+	var vars []av
+	seen := map[string]bool{}
+	add := func(attr, tag string, val any, tops map[string]any) {
+		b, _ := json.Marshal(val)
+		sig := attr + "=" + string(b)
+		if seen[sig] {
+			return
+		}
+		seen[sig] = true
+		vars = append(vars, av{attr, tag, sig, val, tops})
+	}
+	for di, text := range []string{corpusRich, corpusRich2, corpusRich3} {
+		doc := yamlToMap(text)
+		tops := map[string]any{}
+		for _, k := range []string{"networks", "volumes", "secrets", "configs"} {
+			if v, ok := doc[k]; ok {
+				tops[k] = v
+			}
+		}
+		svcs, _ := doc["services"].(map[string]any)
+		for _, sn := range sortedKeys(svcs) {
+			svc, _ := svcs[sn].(map[string]any)
+			for _, attr := range sortedKeys(svc) {
+				if attr == "extends" {
+					continue
+				}
+				v := svc[attr]
+				tag := fmt.Sprintf("d%d.%s.%s", di, sn, attr)
+				add(attr, tag, v, tops)
+				if m, ok := v.(map[string]any); ok {
+					for _, ck := range sortedKeys(m) {
+						add(attr, tag+"."+ck, map[string]any{ck: m[ck]}, tops)
+						if gm, ok := m[ck].(map[string]any); ok {
+							for _, gk := range sortedKeys(gm) {
+								add(attr, tag+"."+ck+"."+gk, map[string]any{ck: map[string]any{gk: gm[gk]}}, tops)
+							}
+						}
+					}
+				}
+			}
+		}
+	}
+	c.Count("valid_attribute_values", int64(len(vars)))
+	for i, a := range vars {
+		for j := i + 1; j < len(vars); j++ {
+			b := vars[j]
+			if a.attr == b.attr {
+				continue
+			}
+			if c.Quick() && strings.Count(a.tag, ".") > 3 && strings.Count(b.tag, ".") > 3 {
+				continue // quick: grandchild cuts are paired with whole values and child cuts only
+			}
+			if (i+j)&1023 == 0 && c.Expired() {
+				return
+			}
+			a, b := a, b
+			id := "validpair/" + a.tag + "+" + b.tag
+			c.Do(id, func() core.Outcome {
+				svc := map[string]any{"image": "i"}
+				svc[a.attr] = a.val
+				svc[b.attr] = b.val
+				doc := map[string]any{"services": map[string]any{"s": svc}}
+				for _, t := range []map[string]any{a.tops, b.tops} {
+					for k, v := range t {
+						m, _ := doc[k].(map[string]any)
+						if m == nil {
+							m = map[string]any{}
+							doc[k] = m
+						}
+						for n, x := range v.(map[string]any) {
+							if _, ok := m[n]; !ok {
+								m[n] = x
+							}
+						}
+					}
+				}
+				out := c01total(id, &Scn{Files: map[string]string{"compose.yaml": mapToYAML(doc)}, Main: []string{"compose.yaml"}, Env: map[string]string{"U": "u"}, InMem: true}, "default")
+				if out.Viol == nil {
+					out.Class = "validpair/" + a.attr + "+" + b.attr + out.Class[strings.LastIndex(out.Class, "/"):]
+					out.Sample = nil
+				}
+				return out
+			})
+		}
+	}
 }
 
 func c01cycles(c *core.Ctx) {
